@@ -194,7 +194,8 @@ class Style:
       ws:          None = random whitespace, "" = none
     """
 
-    def __init__(self, p_redundant=0.1, flat_runs=0.5, spell: Optional[int] = None, ws: Optional[str] = None, extra_brackets: Iterable[Tuple[int, ...]] = ()):
+    def __init__(self, p_redundant=0.1, flat_runs=0.5, spell: Optional[int] = None, ws: Optional[str] = None, extra_brackets: Iterable[Tuple[int, ...]] = (), flatten_any=False):
+        self.flatten_any = flatten_any  # pure Boolean expressions (G-fc): every same-operator run may be written flat
         self.p_redundant = p_redundant
         self.flat_runs = flat_runs
         self.spell = spell
@@ -257,7 +258,7 @@ def render(t, rng, style: Style = Style(), _parent_prec=0, _parent=None, _path=(
         if k == "then":
             need = True
         else:
-            need = not (may_flatten(k, _parent, t) and rng.random() < style.flat_runs)
+            need = not ((style.flatten_any or may_flatten(k, _parent, t)) and rng.random() < style.flat_runs)
     if need or _path in style.extra_brackets or (style.p_redundant and rng.random() < style.p_redundant):
         s = "(" + ws() + s + ws() + ")"
     return s
